@@ -177,3 +177,43 @@ class ClusteredBy:
 
     def ensures(case, old, new, result):
         return new[1][0] is new[1][1]
+
+
+# ------------------------------------------------------------------ routing of clause keys into the table object
+from bounded import c10 as _doc  # noqa: E402
+
+DOC = {k: tuple(v) for k, v in _doc.DOC.items()}
+ATTR_OF = {k: a for a, k in _doc.ALIASES.items()}
+ROUTED_KEYS = sorted(k for k in DOC if k not in ("dataset", "project", "temp"))
+
+
+@contract
+class PreLoadMods:
+    """a clause key captured by the grammar reaches the table object at top level in the mode(s) it is documented
+    for and under table_properties in the default mode; name, schema and columns are passed through untouched"""
+    fn = "output.table_data.TableData.pre_load_mods"
+    props = ["C11", "C10"]
+    cases = {"default mode": dict(mode="sql"), "owning mode": dict(mode=None)}
+
+    def build(G, case):
+        from simple_ddl_parser.output.table_data import TableData
+        key = ROUTED_KEYS[G.choice("key", len(ROUTED_KEYS))]
+        mode = case["mode"] or DOC[key][0]
+        cls = TableData.get_dialect_class({"output_mode": mode})
+        kwargs = {"table_name": G.str("t", NAME), "schema": none_or_str(G, "schema", NAME), "columns": G.oseq("cols", elem=lambda g, n: defcolumn_value(g, n, light=True)),
+                  "output_mode": mode, key: G.str("value")}
+        return dict(args=[None, cls, kwargs], ghost=dict(key=key, mode=mode))
+
+    def requires(case, cls_, main_cls, kwargs):
+        # the internal placeholder of the HQL "FIELDS TERMINATED BY ','" work-around is not a user value
+        return kwargs.get("fields_terminated_by") != "_ddl_parser_comma_only_str"
+
+    def ensures(case, old, new, result):
+        kw = old[2]
+        key = [k for k in kw if k not in ("table_name", "schema", "columns", "output_mode")][0]
+        ok = result["table_name"] == kw["table_name"] and result["columns"] == kw["columns"]
+        top = [k for k in result if k != "table_properties" and k != "init_data"]
+        if case["mode"] == "sql":
+            return ok and result["table_properties"][key] == kw[key] and result["init_data"][key] == kw[key] and key not in top
+        attr = ATTR_OF.get(key, key)
+        return ok and result[attr] == kw[key] and result["init_data"][attr] == kw[key] and key not in result["table_properties"] and attr not in result["table_properties"]
